@@ -267,6 +267,12 @@ def run(ctx):
             if s.prim == "map":
                 ctx.ok(f"{P}.X2", fi.site, "pool.map re-raises worker exceptions in the parent", key=s.key)
     ctx.floor("pool call sites", n_sites, 15)
+    # the functions that collect worker results must not absorb a short / mismatched result (library calls that repeat,
+    # truncate or clip instead of raising): the failure would end in a normal return
+    from vk import generic
+    for fi in prog.all_functions():
+        if fi.module.relpath not in prog.excluded and pools.find_sites(prog, fi):
+            generic.rule_lib_pitfall(ctx, P, fi)
     for rel in MAINS:
         prog.func(rel, "main", P)
     ctx.assume("multiprocessing / pathos re-raise a worker's exception when its result is fetched")
